@@ -53,7 +53,16 @@ abbrev History := List Txn
 
 /-! ### queries (the specification side: C04's `History` restricted to what C07 needs) -/
 
-def Txn.recOf (t : Txn) (o : Oid) : Option Rec := t.recs.find? (fun r => r.oid == o)
+/-- A transaction may hold several records of one oid (two `store` calls, or two `undo` calls of
+    one transaction hitting the same object — `DB.undoMultiple`).  The storage's index keeps the
+    LAST one (`self._tindex[oid] = here`, `oid2curpos[dh.oid] = pos` overwrite); the earlier ones are
+    never loaded.  `dedupLast` drops every record that is followed by a record of the same oid. -/
+def dedupLast : List Rec → List Rec
+  | [] => []
+  | r :: rest => if rest.any (fun x => x.oid == r.oid) then dedupLast rest else r :: dedupLast rest
+
+/-- the record of `o` in `t` that the storage sees: the last one -/
+def Txn.recOf (t : Txn) (o : Oid) : Option Rec := (dedupLast t.recs).find? (fun r => r.oid == o)
 
 /-- all records of `o`, in commit order, tagged with their tid -/
 def recsOf (h : History) (o : Oid) : List (Tid × Rec) :=
@@ -229,9 +238,11 @@ def GC.isReachable (g : GC) (t : Tid) (o : Oid) : Bool :=
 def packRec (r : Rec) : Rec := { r with back := none }
 
 /-- `copyDataRecords` for one transaction: only reachable records, status `'p'`; a transaction
-    without a kept record is not copied at all -/
+    without a kept record is not copied at all.  `isReachable(oid, pos)` compares positions and the
+    marks are positions of index entries / back-pointer targets, i.e. of LAST records: an earlier
+    record of the same oid in the same transaction is never copied. -/
 def copyPreTxn (keep : Tid → Oid → Bool) (t : Txn) : Option Txn :=
-  let rs := t.recs.filter (fun r => keep t.tid r.oid)
+  let rs := (dedupLast t.recs).filter (fun r => keep t.tid r.oid)
   if rs.isEmpty then none else some { t with packed := true, recs := rs.map packRec }
 
 /-- `copyToPacktime` -/
